@@ -486,7 +486,27 @@ fn describe_after(s: &[Snap]) -> String {
 
 /// One full case on the current state of `tc` (not modified): serial step with `script`, bisection
 /// of every decision, unwrapped and rayon re-runs, oracle. Emits the `sw` line and a `psw` line.
-pub fn step_case<Q: Rep>(tc: &TC<Q>, script_seed: u64, bisect: bool) -> Result<(TC<Q>, Vec<u64>), String> {
+pub struct StepOut<Q: Rep> {
+    pub after: TC<Q>,
+    pub par_after: TC<Q>,
+    pub words: Vec<u64>,
+}
+
+/// history token of a container that was filled up front
+pub fn hist_of(n: usize) -> String {
+    "a".repeat(n)
+}
+
+/// Serial continuation: runs the case, appends `s` to the call history.
+pub fn step_case<Q: Rep>(tc: &TC<Q>, script_seed: u64, bisect: bool, hist: &mut String) -> Result<(TC<Q>, Vec<u64>), String> {
+    let o = step_case_ex(tc, script_seed, bisect, hist)?;
+    hist.push('s');
+    Ok((o.after, o.words))
+}
+
+/// `hist`: the public calls made on this container so far (`a` add, `s` tempering_step, `p`
+/// parallel_tempering_step) — the model replays them to know the state of the ham_eq caches.
+pub fn step_case_ex<Q: Rep>(tc: &TC<Q>, script_seed: u64, bisect: bool, hist: &str) -> Result<StepOut<Q>, String> {
     let n = tc.num_graphs();
     let mut g = SplitMix64::new(script_seed);
     // enough words for the order draw and all pairs
@@ -509,16 +529,30 @@ pub fn step_case<Q: Rep>(tc: &TC<Q>, script_seed: u64, bisect: bool) -> Result<(
     if words.len() != expect_words {
         fail(format!("drew {} words, expected {}", words.len(), expect_words));
     }
-    if n >= 2 && decs.len() != n - 1 {
-        fail(format!("{} pair decisions for {} replicas", decs.len(), n));
-    }
     // every adjacent pair exactly once, same-phase pairs disjoint and contiguous
     {
         let mut lefts: Vec<usize> = decs.iter().map(|d| d.left).collect();
         lefts.sort();
         if n >= 2 && lefts != (0..n - 1).collect::<Vec<_>>() {
-            fail(format!("pairs attempted: {:?}", lefts));
+            // name the neighbour pairs of the current ladder without exactly one decision
+            let mut bad = vec![];
+            for l in 0..n - 1 {
+                let c = lefts.iter().filter(|x| **x == l).count();
+                if c != 1 {
+                    let gr = tc.graph_ref();
+                    let r = oracle_ratio(&gr[l].0.q, betas[l], &gr[l + 1].0.q, betas[l + 1]);
+                    bad.push(format!("({},{}) got {} decisions (Metropolis ratio at step start {:.6})", l, l + 1, c, r));
+                }
+            }
+            fail(format!(
+                "every neighbour pair of the current ladder must get exactly one decision per step: {}; pairs attempted: {:?}",
+                bad.join(", "),
+                lefts
+            ));
         }
+    }
+    if n >= 2 && decs.len() != n - 1 {
+        fail(format!("{} pair decisions for {} replicas", decs.len(), n));
     }
     // --- cutoffs equalised to the previous maximum ---
     let maxc = before.iter().map(|s| s.sampler_cutoff).max().unwrap_or(0);
@@ -611,6 +645,12 @@ pub fn step_case<Q: Rep>(tc: &TC<Q>, script_seed: u64, bisect: bool) -> Result<(
         if want == 0.0 {
             stat(&format!("{}.zero_ratio_pairs", Q::KIND), 1);
         }
+        if want >= 1.0 && !d.accepted {
+            fail(format!("pair ({},{}) has Metropolis ratio 1 and must always be exchanged, but was not", d.left, d.left + 1));
+        }
+        if want >= 1.0 {
+            stat(&format!("{}.ratio_one_pairs", Q::KIND), 1);
+        }
         let u = ((words.get(idx).copied().unwrap_or(0) >> 12) as f64) / (1u64 << 52) as f64;
         if (want - u).abs() > 1e-9 && d.accepted != (want > u) {
             fail(format!("pair ({},{}) decision {} with u={} ratio={}", d.left, d.left + 1, d.accepted, u, want));
@@ -643,13 +683,15 @@ pub fn step_case<Q: Rep>(tc: &TC<Q>, script_seed: u64, bisect: bool) -> Result<(
         None => "-".into(),
     };
 
+    let htok = if hist.is_empty() { "-".to_string() } else { hist.to_string() };
     let input = format!(
-        "sw {} {} {} {} {} {}",
+        "sw {} {} {} {} {} {} {}",
         Q::KIND,
         if bisect { 1 } else { 0 },
         n,
         swaps_before,
         list(&words),
+        htok,
         describe_container(tc)
     );
     let output = format!(
@@ -670,10 +712,10 @@ pub fn step_case<Q: Rep>(tc: &TC<Q>, script_seed: u64, bisect: bool) -> Result<(
     emit(nontrivial, &input, &output, Some(oracle));
 
     // the rayon step as its own (cheap) case: same inputs, its own word log and result
-    let pin = format!("psw {} 0 {} {} {} {}", Q::KIND, n, swaps_before, list(&par_words), describe_container(tc));
+    let pin = format!("psw {} 0 {} {} {} {} {}", Q::KIND, n, swaps_before, list(&par_words), htok, describe_container(tc));
     let pout = format!("{} {} {} ok", describe_after(&par_after), par_tc.get_total_swaps(), par_acc);
     emit(nontrivial, &pin, &pout, None);
-    Ok((after_tc, words))
+    Ok(StepOut { after: after_tc, par_after: par_tc, words })
 }
 
 // ------------------------------------------------------------------------------------------
@@ -876,15 +918,16 @@ pub fn mode_ising_steps(seed: u64, thorough: bool) {
         }
         // a short history: step, a few time steps, step (cached equalities, counters)
         let steps = if thorough { 3 } else { 2 };
+        let mut hist = hist_of(n);
         for s in 0..steps {
-            match step_case(&tc, g.next(), true) {
+            match step_case(&tc, g.next(), true, &mut hist) {
                 Ok((next, _)) => {
                     tc = next;
                     let log2 = new_log();
                     set_log(&mut tc, &log2);
                 }
                 Err(e) => {
-                    emit(true, &format!("sw i 1 {} 0 - {}", n, describe_container(&tc)), "panic", Some(Err(format!("tempering step panicked: {}", e))));
+                    emit(true, &format!("sw i 1 {} 0 - {} {}", n, hist, describe_container(&tc)), "panic", Some(Err(format!("tempering step panicked: {}", e))));
                     break;
                 }
             }
@@ -913,7 +956,7 @@ pub fn mode_ising_steps(seed: u64, thorough: bool) {
             if equilibrate(&mut tc, &mut g).is_err() {
                 continue;
             }
-            let _ = step_case(&tc, g.next(), true);
+            let _ = step_case(&tc, g.next(), true, &mut hist_of(n));
         }
     }
     // degenerate ladders: 0 and 1 replica (the serial step draws nothing, the rayon step draws the order word)
@@ -922,7 +965,7 @@ pub fn mode_ising_steps(seed: u64, thorough: bool) {
         let log = new_log();
         if let Ok(mut tc) = build_ising(&mut g, &specs[..n], &log) {
             let _ = equilibrate(&mut tc, &mut g);
-            let _ = step_case(&tc, g.next(), true);
+            let _ = step_case(&tc, g.next(), true, &mut hist_of(n));
         }
     }
 }
@@ -956,15 +999,16 @@ pub fn mode_generic_steps(seed: u64, thorough: bool) {
             stat("g.equilibration_panicked", 1);
             continue;
         }
+        let mut hist = hist_of(n);
         for s in 0..2 {
-            match step_case(&tc, g.next(), true) {
+            match step_case(&tc, g.next(), true, &mut hist) {
                 Ok((next, _)) => {
                     tc = next;
                     let log2 = new_log();
                     set_log(&mut tc, &log2);
                 }
                 Err(e) => {
-                    emit(true, &format!("sw g 1 {} 0 - {}", n, describe_container(&tc)), "panic", Some(Err(format!("tempering step panicked: {}", e))));
+                    emit(true, &format!("sw g 1 {} 0 - {} {}", n, hist, describe_container(&tc)), "panic", Some(Err(format!("tempering step panicked: {}", e))));
                     break;
                 }
             }
@@ -1084,6 +1128,61 @@ pub fn mode_pairs(seed: u64, thorough: bool) {
         if eq && !can {
             oracle = Err("ham_eq true for a pair that cannot be swapped".into());
         }
+        // every matrix element of the Hamiltonian: all bonds x all in/out patterns (also the ones no sampler reads)
+        {
+            let info = qa.make_haminfo();
+            let ne = qa.get_edges().len();
+            let nv = qa.get_nvars();
+            let pats = |k: usize| -> Vec<Vec<bool>> { (0..(1usize << k)).map(|i| (0..k).map(|b| (i >> (k - 1 - b)) & 1 == 1).collect()).collect() };
+            let mut vals = vec![];
+            let mut mat_oracle: Result<(), String> = Ok(());
+            for b in 0..ne + 2 * nv {
+                let (k, vars): (usize, Vec<usize>) = if b < ne { (2, qa.get_edges()[b].0.clone()) } else { (1, vec![(b - ne) % nv]) };
+                for ins in pats(k) {
+                    for outs in pats(k) {
+                        let w = IsingQ::hamiltonian(&info, &vars, b, &ins, &outs);
+                        // bond and field terms are diagonal; every element is >= 0
+                        if (b < ne || b >= ne + nv) && ins != outs && w != 0.0 {
+                            mat_oracle = Err(format!("bond {} has an off-diagonal matrix element {} for {:?} -> {:?}", b, w, ins, outs));
+                        }
+                        if w < 0.0 {
+                            mat_oracle = Err(format!("negative matrix element {} on bond {}", w, b));
+                        }
+                        vals.push(rat(w));
+                    }
+                }
+            }
+            emit(true, &format!("mat {}", qa.describe()), &vals.join(","), Some(mat_oracle));
+        }
+        // the public swap on samplers with different cutoffs: strings and states exchanged, both cutoffs raised to the larger
+        if can && same_shape {
+            let (mut xa, mut xb) = (qa.clone(), qb.clone());
+            let (ca, cb) = (xa.get_cutoff(), xb.get_cutoff());
+            let input = format!(
+                "swapg {} {} {} {} {} {} {} {}",
+                xa.describe(), ca, bits(xa.state_ref()), xa.slots(), xb.describe(), cb, bits(xb.state_ref()), xb.slots()
+            );
+            let (sa0, sb0) = (xa.state_ref().to_vec(), xb.state_ref().to_vec());
+            let (oa0, ob0) = (xa.ops(), xb.ops());
+            let r = catch(|| xa.swap_graphs(&mut xb));
+            let mut oracle = Ok(());
+            if r.is_err() {
+                oracle = Err("swap_graphs panicked".to_string());
+            } else {
+                let m = ca.max(cb);
+                if xa.get_cutoff() != m || xb.get_cutoff() != m || xa.mgr_cutoff() < m || xb.mgr_cutoff() < m {
+                    oracle = Err(format!("after swap_graphs cutoffs {} / {} (managers {} / {}), expected the larger of {} and {}", xa.get_cutoff(), xb.get_cutoff(), xa.mgr_cutoff(), xb.mgr_cutoff(), ca, cb));
+                }
+                if xa.state_ref() != &sb0[..] || xb.state_ref() != &sa0[..] || xa.ops() != ob0 || xb.ops() != oa0 {
+                    oracle = Err("swap_graphs did not exchange states and operator strings".to_string());
+                }
+                if frame_tag(&xa) != frame_tag(&qa) || frame_tag(&xb) != frame_tag(&qb) {
+                    oracle = Err("swap_graphs changed a field other than manager/state/cutoff".to_string());
+                }
+            }
+            let sh = |x: &IsingQ| format!("{} {} {} {}", x.get_cutoff(), x.mgr_cutoff(), bits(x.state_ref()), x.slots());
+            emit(ca != cb, &input, &format!("{} {}", sh(&xa), sh(&xb)), Some(oracle));
+        }
         let input = format!("pair i {} {} {} {}", qa.describe(), qa.slots(), qb.describe(), qb.slots());
         let output = format!("{} {} {} {} {}", can as u8, can_r as u8, eq as u8, rab, rba);
         stat(if can { "pair.i.can_swap" } else { "pair.i.refused" }, 1);
@@ -1168,6 +1267,118 @@ pub fn mode_pairs(seed: u64, thorough: bool) {
     }
 }
 
+
+/// A ladder that is grown *between* tempering steps: add, step(s), add, step(s), … up to `reps.len()`
+/// replicas, continuing with the serial or the rayon result at random. Every step is a full case
+/// (bisection, decision log, one decision per neighbour pair of the current ladder).
+pub fn grow_history<Q: Rep>(reps: Vec<(Q, f64)>, g: &mut SplitMix64, k0: usize) {
+    let total = reps.len();
+    let mut tc: TC<Q> = TemperingContainer::new(RecRng::new(0));
+    let mut hist = String::new();
+    let mut pending = reps.into_iter();
+    let mut add_some = |tc: &mut TC<Q>, hist: &mut String, k: usize| -> bool {
+        for _ in 0..k {
+            if let Some((q, beta)) = pending.next() {
+                let id = tc.num_graphs();
+                if tc.add_qmc_stepper(Spy { q, id, log: new_log() }, beta).is_err() {
+                    stat("grow.add_refused", 1);
+                    return false;
+                }
+                hist.push('a');
+            }
+        }
+        true
+    };
+    if !add_some(&mut tc, &mut hist, k0) {
+        return;
+    }
+    loop {
+        let t = 2 + g.below(8) as usize;
+        if catch(|| tc.timesteps(t)).is_err() {
+            stat("grow.replica_update_panicked", 1);
+            return;
+        }
+        let steps_here = 1 + g.below(2) as usize;
+        for _ in 0..steps_here {
+            match step_case_ex(&tc, g.next(), true, &hist) {
+                Ok(o) => {
+                    let par = g.coin();
+                    tc = if par { o.par_after } else { o.after };
+                    hist.push(if par { 'p' } else { 's' });
+                    let l2 = new_log();
+                    set_log(&mut tc, &l2);
+                    stat(&format!("grow.{}.step_on_{}_replicas", Q::KIND, tc.num_graphs()), 1);
+                }
+                Err(e) => {
+                    emit(
+                        true,
+                        &format!("sw {} 1 {} 0 - {} {}", Q::KIND, tc.num_graphs(), hist, describe_container(&tc)),
+                        "panic",
+                        Some(Err(format!("tempering step panicked: {}", e))),
+                    );
+                    return;
+                }
+            }
+        }
+        if tc.num_graphs() >= total {
+            break;
+        }
+        let k = 1 + g.below(2) as usize;
+        if !add_some(&mut tc, &mut hist, k) {
+            return;
+        }
+    }
+    stat(&format!("grow.{}.histories", Q::KIND), 1);
+}
+
+pub fn mode_grow(seed: u64, thorough: bool) {
+    let mut g = SplitMix64::new(seed ^ 0x9a0);
+    let runs = if thorough { 160 } else { 30 };
+    for l in 0..runs {
+        let total = 3 + (l % 6) as usize; // 3..8
+        let flavour = l % 3;
+        let mut specs = match flavour {
+            0 | 1 => {
+                // one Hamiltonian for the whole ladder
+                let one = ising_ladder(&mut g, 1, 0, false).remove(0);
+                (0..total).map(|_| one.clone()).collect::<Vec<_>>()
+            }
+            _ => {
+                let kind = 1 + g.below(5);
+                ising_ladder(&mut g, total, kind, false)
+            }
+        };
+        for (i, s) in specs.iter_mut().enumerate() {
+            s.cutoff = 1 + g.below(6) as usize;
+            if flavour == 1 {
+                s.beta = (2 + i) as f64 / 4.0 + 0.25 * g.below(3) as f64;
+            }
+        }
+        stat(&format!("grow.i.flavour_{}", flavour), 1);
+        let reps: Vec<(IsingQ, f64)> = specs.iter().map(|s| (make_ising(s, g.next()), s.beta)).collect();
+        let k0 = (l % 3) as usize; // start from 0, 1 or 2 replicas
+        grow_history(reps, &mut g, k0.max(if l % 7 == 0 { 0 } else { 1 }));
+    }
+    let gruns = if thorough { 50 } else { 10 };
+    for l in 0..gruns {
+        let total = 3 + (l % 6) as usize;
+        let nvars = 2 + g.below(2) as usize;
+        let ham = random_gen_ham(&mut g, nvars);
+        let same_beta = l % 2 == 0;
+        let b0 = g.range(2, 8) as f64 / 4.0;
+        let reps: Result<Vec<(GenQ, f64)>, String> = (0..total)
+            .map(|_| {
+                let beta = if same_beta { b0 } else { g.range(1, 10) as f64 / 4.0 };
+                let s = GenSpec { nvars, inters: ham.clone(), beta, loops: l % 3 == 0, heatbath: false };
+                make_gen(&s, g.next()).map(|q| (q, beta))
+            })
+            .collect();
+        if let Ok(reps) = reps {
+            grow_history(reps, &mut g, 1 + (l % 2) as usize);
+        }
+    }
+}
+
 #[allow(dead_code)]
 fn main() {
     quiet_panics();
@@ -1177,11 +1388,13 @@ fn main() {
         "generic" => mode_generic_steps(a.seed, a.thorough),
         "pairs" => mode_pairs(a.seed, a.thorough),
         "mismatch" => mode_mismatch(a.seed),
+        "grow" => mode_grow(a.seed, a.thorough),
         _ => {
             mode_ising_steps(a.seed, a.thorough);
             mode_generic_steps(a.seed, a.thorough);
             mode_pairs(a.seed, a.thorough);
             mode_mismatch(a.seed);
+            mode_grow(a.seed, a.thorough);
         }
     });
     if let Err(e) = r {
